@@ -399,7 +399,7 @@ func main() {
 		"play-udp, play-auto-461, play-auto-switch, pause-tcp, record-tcp, record-auto). Positions = every request the scripted server " +
 		"answers in the conversation (TEARDOWN and timer-driven keep-alives are answered correctly and are not positions). Singles: every position of the control " +
 		"conversation x every deviation of the menu applicable to the request at that position (status codes incl. redirect chains <=3, CSeq, Session, Transport, Content-Base, " +
-		"SDP incl. control attributes with invalid escapes, delivery: drop/duplicate/delay/inject request or frame/close/silence/Content-Length). Pairs (thorough): both deviations from the " +
+		"SDP incl. control attributes with invalid escapes, delivery: drop/duplicate/delay/inject request or frame/close/silence/Content-Length). Tunnel handshakes: client with Tunnel = HTTP / WebSocket against a peer that misbehaves in the HTTP exchange before any RTSP request, 13 behaviours each (silent at 3 points, closes at 3 points, other status, garbage, partial head, correct answer then silent / second connection ignored / closed, answer delayed beyond the timeout, huge head); Start, Describe, Options and Close must return, nothing left behind. Pairs (thorough): both deviations from the " +
 		"reduced pair menu (one or more representatives of every class); for every such single, every later position of the conversation observed under that single x every applicable " +
 		"deviation of the pair menu; in a flow that extends another flow (pause-* extends play-*, play-auto-switch extends play-auto) the second deviation lies beyond the base flow's " +
 		"conversation (pairs inside the shared prefix are run in the base flow); pairs with credentials in the URL are enumerated for the flows describe, play-tcp, play-udp, " +
@@ -441,7 +441,7 @@ func main() {
 	// ---- control runs: the scripted server must be faithful
 	var selected []*Flow
 	for _, f := range flows {
-		if f.Quick || run.Thorough() {
+		if (f.Quick || run.Thorough()) && !f.Handshake {
 			selected = append(selected, f)
 		}
 	}
@@ -505,6 +505,7 @@ func main() {
 				}
 			}
 		}
+		singles = append(singles, tunnelHandshakeCases()...)
 		run.Set("single_deviation_cases", len(singles))
 		run.Set("deviation_menu", len(devMenu))
 		if run.Thorough() {
